@@ -1,6 +1,7 @@
 /-
   Main lemmas behind the C14/C15 theorems: the shared state after a serving call has returned, the nil return
-  after a Shutdown that found the call in Accept, and the decision taken at an accept-deadline expiry.
+  after a Shutdown that found the call in Accept, the decision taken at an accept-deadline expiry, and the
+  atomicity of the start-up critical sections of Bind / Listen / DoListen.
 -/
 import VarlinkProofs.Lemmas.LifecycleOrderly
 namespace Varlink.Life
@@ -37,8 +38,8 @@ theorem accounted_owner_active {w : World} (hinv : Inv w) {i : Nat} {x : Conn} (
 theorem reusable_core {w w' : World} (h : OReach w) {k : Nat} {c : Call} (hk : w.calls[k]? = some c)
     (hpc : c.pc = .waiting) (hs : step w (.call k) = some w') :
     w'.running = false ∧ w'.lst = none ∧ w'.addrF = none ∧ w'.counter = 0 ∧ w'.wgPanic = false ∧ Idle w' := by
-  obtain ⟨hinv, hv, ho⟩ := oreach_invs h
-  obtain ⟨a1, a2, a3⟩ := (ho.own k c hk).afterL hpc
+  obtain ⟨hinv, _, _, hone, hafter⟩ := oreach_invs h
+  obtain ⟨a1, a2, a3⟩ := hafter k c hk hpc
   have hact : c.active = true := by simp [Call.active, hpc]
   simp only [step, stepCall, hk, hpc] at hs
   split at hs
@@ -54,7 +55,7 @@ theorem reusable_core {w w' : World} (h : OReach w) {k : Nat} {c : Call} (hk : w
       | true =>
         exfalso
         obtain ⟨co, hco, hca, hcp, hcw⟩ := accounted_owner_active hinv hi (Or.inl hcx)
-        have hok : x.owner = k := ho.one _ _ _ _ hco hk hca hact
+        have hok : x.owner = k := hone _ _ _ _ hco hk hca hact
         rw [hok, hk] at hco; simp only [Option.some.injEq] at hco; subst hco
         cases hp : x.phase <;> simp [cntd, hp, inCounter] at hcx
         · have := hcp hp; rw [hpc] at this; cases this
@@ -69,13 +70,19 @@ theorem reusable_core {w w' : World} (h : OReach w) {k : Nat} {c : Call} (hk : w
       · simp only [hkj, if_false] at hj
         cases hcj : cj.active with
         | false => rfl
-        | true => exact absurd (ho.one _ _ _ _ hj hk hcj hact) (fun e => hkj e.symm)
+        | true => exact absurd (hone _ _ _ _ hj hk hcj hact) (fun e => hkj e.symm)
   · cases hs
 
+/-- `running` becomes true only in the start-up critical section of a serving call -/
 theorem running_step {w w' : World} {a : Label} (h : Rel w a w') (hr : w'.running = true) :
-    w.running = true ∨ ∃ j cj, a = .call j ∧ w.calls[j]? = some cj ∧ cj.pc = .setRunning := by
+    w.running = true ∨ ∃ j cj, a = .call j ∧ w.calls[j]? = some cj ∧ w.running = false ∧
+      ((cj.pc = .bindCheck ∧ cj.kind ≠ .bind) ∨ cj.pc = .readLst) := by
   cases h
-  case setRunning k c hk hpc => exact Or.inr ⟨k, c, rfl, hk, hpc⟩
+  case listenOk k c a hk hpc hr' ha hu hkd => exact Or.inr ⟨k, c, rfl, hk, hr', Or.inl ⟨hpc, hkd⟩⟩
+  case readSome k c l hk hpc hl =>
+    cases hrw : w.running with
+    | true => exact Or.inl rfl
+    | false => exact Or.inr ⟨k, c, rfl, hk, rfl, Or.inr hpc⟩
   case teardown => simp at hr
   case shutdown => simp at hr
   all_goals exact Or.inl (by simpa using hr)
@@ -89,30 +96,19 @@ def NilOutcome (w : World) (k l : Nat) : Prop :=
 theorem oreach_shutdown {w : World} (h : OReach w) : OReach (stepShutdown w) :=
   Reach.step (a := .shutdown) h trivial rfl
 
-theorem nil_after_shutdown_in_accept {w w2 : World} (h : OReach w) {k : Nat} {c : Call}
-    (hk : w.calls[k]? = some c) (hpc : c.pc = .inAccept) (h2 : Reach Orderly (stepShutdown w) w2) :
+/-- the Shutdown may be issued in ANY reachable state; only the continuation is `Serial` (no serving call is started
+    while call `k` is still in flight) -/
+theorem nil_after_shutdown_in_accept {w w2 : World} (h : Reachable w) {k : Nat} {c : Call}
+    (hk : w.calls[k]? = some c) (hpc : c.pc = .inAccept) (h2 : Reach Serial (stepShutdown w) w2) :
     ∃ l, NilOutcome w2 k l ∧ Closed w2 l := by
-  obtain ⟨_, hv, ho⟩ := oreach_invs h
-  obtain ⟨hl1, hl2⟩ := (ho.own k c hk).loopL (by simp [hpc, loopPc])
-  obtain ⟨l, hl⟩ := Option.isSome_iff_exists.mp hl2
-  have hcl : Closed (stepShutdown w) l := by
-    have hlt := hv.lst l (by rw [← hl1]; exact hl)
-    refine closed_of_isOpen_false (by simpa using hlt) ?_
-    have : w.lst = some l := by rw [← hl1]; exact hl
-    simp only [stepShutdown, this, isOpen, closeL]
-    rw [List.getElem?_modify]
-    simp [hlt]
-  have hret : c.ret = none := by
-    cases hr : c.ret with
-    | none => rfl
-    | some r => have := (ho.own k c hk).retNone (by simp [hr]); simp [hpc] at this
+  obtain ⟨l, hl, hcl⟩ := loop_listener_closed_by_shutdown h hk (by simp [hpc, loopPc])
+  have hret : c.ret = none := (srv_reachable h k c hk).ret_none (by simp [hpc, loopPc])
   refine ⟨l, ?_⟩
   refine Reach.induct (fun w2 => NilOutcome w2 k l ∧ Closed w2 l) ⟨?_, hcl⟩ ?_ h2
   · exact ⟨c, by simpa using hk, hl, Or.inl ⟨Or.inl hpc, hret, by simp⟩⟩
   · intro wa a wb hra ⟨⟨ca, hka, hla, hout⟩, hca⟩ hord hs
     have hcb := closed_step hs hca
     refine ⟨?_, hcb⟩
-    obtain ⟨_, _, hoa⟩ := oreach_invs (Reach.trans (oreach_shutdown h) hra)
     by_cases ha : a = .call k
     · subst ha
       simp only [step, stepCall, hka] at hs
@@ -146,11 +142,17 @@ theorem nil_after_shutdown_in_accept {w w2 : World} (h : OReach w) {k : Nat} {c 
           | false => rfl
           | true =>
             exfalso
-            rcases running_step hrel hrb with h' | ⟨j, cj, rfl, hj, hpj⟩
+            rcases running_step hrel hrb with h' | ⟨j, cj, rfl, hj, _, hpj⟩
             · rw [hrun] at h'; cases h'
             · have hactk : ca.active = true := by rcases hp with e | e <;> simp [Call.active, e]
-              have : j = k := hoa.one _ _ _ _ hj hka (by simp [Call.active, hpj]) hactk
-              exact ha (by rw [this])
+              have hjk : k ≠ j := fun e => ha (by rw [e])
+              have hoi : OthersIdle wa j := by
+                rcases hpj with ⟨hb, hkd⟩ | hb
+                · rcases (hord cj hj).1 hb hkd with h1 | h1
+                  · rw [hrun] at h1; cases h1
+                  · exact h1
+                · exact (hord cj hj).2 hb
+              rw [hoi k ca hka hjk] at hactk; cases hactk
         · exact Or.inr hdone
 
 /-! ### the idle timeout -/
@@ -168,24 +170,19 @@ theorem own_step_timeout_facts {w w' : World} {k : Nat} {c c' : Call} (hs : step
   simp only [step, stepCall, hk] at hs
   cases hpc : c.pc <;> simp only [hpc] at hs
   case bindCheck =>
-    split at hs <;> (simp only [Option.some.injEq] at hs; have := key _ _ hs.symm rfl; subst this; simp)
-  case parse =>
-    cases ha : c.addr <;> simp only [ha, Option.some.injEq] at hs <;>
-      (have := key _ _ hs.symm rfl; subst this; simp)
-  case listenSys =>
-    cases ha : c.addr with
-    | none => simp [ha] at hs
-    | some a =>
-      simp only [ha] at hs
-      split at hs <;> (simp only [Option.some.injEq] at hs; have := key _ _ hs.symm rfl; subst this; simp)
-  case store =>
-    cases hkd : c.kind <;> simp only [hkd, Option.some.injEq] at hs <;>
-      (have := key _ _ hs.symm rfl; subst this; simp)
+    split at hs
+    · simp only [Option.some.injEq] at hs; have := key _ _ hs.symm rfl; subst this; simp
+    · cases ha : c.addr with
+      | none => simp only [ha, Option.some.injEq] at hs; have := key _ _ hs.symm rfl; subst this; simp
+      | some a =>
+        simp only [ha] at hs
+        split at hs
+        · simp only [Option.some.injEq] at hs; have := key _ _ hs.symm rfl; subst this; simp
+        · cases hkd : c.kind <;> simp only [hkd, Option.some.injEq] at hs <;>
+            (have := key _ _ hs.symm rfl; subst this; simp)
   case readLst =>
     cases hl : w.lst <;> simp only [hl, Option.some.injEq] at hs <;>
       (have := key _ _ hs.symm rfl; subst this; simp)
-  case setRunning =>
-    simp only [Option.some.injEq] at hs; have := key _ _ hs.symm rfl; subst this; simp
   case loopCheck =>
     split at hs <;> (simp only [Option.some.injEq] at hs; have := key _ _ hs.symm rfl; subst this)
     · cases c.tmo <;> simp
@@ -279,5 +276,69 @@ theorem accInv_step {w w' : World} {a : Label} (h : AccInv w) (hs : step w a = s
 
 theorem accInv_reach {P : World → Label → Prop} {w : World} (h : Reach P init w) : AccInv w :=
   Reach.induct AccInv (fun k c hk => by simp [init] at hk) (fun _ _ _ _ hi _ hs => accInv_step hi hs) h
+
+/-! ### the start-up critical sections are single steps -/
+
+theorem bind_atomic_core {w w' : World} {k : Nat} {c : Call} (hk : w.calls[k]? = some c) (hpc : c.pc = .bindCheck)
+    (hs : step w (.call k) = some w') :
+    ∃ c', w'.calls[k]? = some c' ∧ c'.kind = c.kind ∧
+      ((w.running = true ∧ c'.pc = .returned ∧ c'.ret = some .errRunning ∧
+          w'.running = w.running ∧ w'.lst = w.lst ∧ w'.lsnrs = w.lsnrs ∧ w'.addrF = w.addrF) ∨
+       (w.running = false ∧ c'.pc = .returned ∧ (c'.ret = some .errParse ∨ c'.ret = some .errListen) ∧
+          w'.running = false ∧ w'.lst = w.lst ∧ w'.lsnrs = w.lsnrs) ∨
+       (w.running = false ∧ c.kind = .bind ∧ c'.pc = .returned ∧ c'.ret = some .nil ∧
+          w'.running = false ∧ w'.lst = some w.lsnrs.length ∧ c'.l = w'.lst ∧ isOpen w' w.lsnrs.length = true) ∨
+       (w.running = false ∧ c.kind ≠ .bind ∧ c'.pc = .loopCheck ∧ c'.ret = c.ret ∧
+          w'.running = true ∧ w'.lst = some w.lsnrs.length ∧ c'.l = w'.lst ∧ isOpen w' w.lsnrs.length = true)) := by
+  simp only [step, stepCall, hk, hpc] at hs
+  split at hs
+  · rename_i hr
+    simp only [Option.some.injEq] at hs; subst hs
+    exact ⟨_, setCall_get hk, rfl, Or.inl ⟨hr, rfl, rfl, rfl, rfl, rfl, rfl⟩⟩
+  · rename_i hr
+    have hr' : w.running = false := by simpa using hr
+    cases ha : c.addr with
+    | none =>
+      simp only [ha, Option.some.injEq] at hs; subst hs
+      exact ⟨_, setCall_get hk, rfl, Or.inr (Or.inl ⟨hr', rfl, Or.inl rfl, hr', rfl, rfl⟩)⟩
+    | some a =>
+      simp only [ha] at hs
+      split at hs
+      · simp only [Option.some.injEq] at hs; subst hs
+        exact ⟨_, setCall_get (w := { w with addrF := some a }) hk, rfl,
+          Or.inr (Or.inl ⟨hr', rfl, Or.inr rfl, hr', rfl, rfl⟩)⟩
+      · have hop : ∀ X : World, X.lsnrs = w.lsnrs ++ [{ addr := a }] → isOpen X w.lsnrs.length = true := by
+          intro X hX; simp [isOpen, hX]
+        cases hkd : c.kind <;> simp only [hkd, Option.some.injEq] at hs <;> subst hs
+        · exact ⟨_, setCall_get (w := { bound w a with running := true }) hk, rfl,
+            Or.inr (Or.inr (Or.inr ⟨hr', by simp, rfl, rfl, rfl, rfl, rfl, hop _ rfl⟩))⟩
+        · exact ⟨_, setCall_get (w := { bound w a with running := true }) hk, rfl,
+            Or.inr (Or.inr (Or.inr ⟨hr', by simp, rfl, rfl, rfl, rfl, rfl, hop _ rfl⟩))⟩
+        · exact ⟨_, setCall_get (w := bound w a) hk, rfl,
+            Or.inr (Or.inr (Or.inl ⟨hr', rfl, rfl, rfl, hr', rfl, rfl, hop _ rfl⟩))⟩
+
+theorem dolisten_atomic_core {w w' : World} {k : Nat} {c : Call} (hk : w.calls[k]? = some c) (hpc : c.pc = .readLst)
+    (hs : step w (.call k) = some w') :
+    ∃ c', w'.calls[k]? = some c' ∧ c'.kind = c.kind ∧ w'.lst = w.lst ∧ w'.lsnrs = w.lsnrs ∧ w'.addrF = w.addrF ∧
+      ((w.lst = none ∧ c'.pc = .teardown ∧ c'.ret = some .errNoListener ∧ w'.running = w.running) ∨
+       (∃ l, w.lst = some l ∧ c'.pc = .loopCheck ∧ c'.ret = c.ret ∧ c'.l = w'.lst ∧ w'.running = true)) := by
+  simp only [step, stepCall, hk, hpc] at hs
+  cases hl : w.lst with
+  | none =>
+    simp only [hl, Option.some.injEq] at hs; subst hs
+    exact ⟨_, setCall_get hk, rfl, hl, rfl, rfl, Or.inl ⟨rfl, rfl, rfl, rfl⟩⟩
+  | some l =>
+    simp only [hl, Option.some.injEq] at hs; subst hs
+    exact ⟨_, setCall_get (w := { w with running := true }) hk, rfl, rfl, rfl, rfl, Or.inr ⟨l, rfl, rfl, rfl, rfl, rfl⟩⟩
+
+/-- a serving call in its loop on an OPEN listener serves the stored listener of a running service -/
+theorem serving_open_is_stored {w : World} (h : Reachable w) {k : Nat} {c : Call} (hk : w.calls[k]? = some c)
+    (hp : loopPc c.pc = true) {l : Nat} (hl : c.l = some l) (ho : isOpen w l = true) :
+    w.lst = some l ∧ w.running = true := by
+  obtain ⟨l', hl', hsv⟩ := loop_listener h hk hp
+  rw [hl] at hl'; simp only [Option.some.injEq] at hl'; subst hl'
+  rcases hsv with hc | hs
+  · rw [isOpen_false_of_closed hc] at ho; cases ho
+  · exact hs
 
 end Varlink.Life
